@@ -73,6 +73,18 @@ func C15_SPI() {
 		want, _ = wd.n.m.state.Contexts.For(state.NewHeightView(1, 0))
 		s0 = wd.n.snap()
 		wd.n.deliver(wd.net.ppm(0, 1, 0, blk).ToConsensusRawMessage())
+	case 6: // HandlePrePrepare for a PREPREPARE of the next view (its leader is early): context of the message's position
+		wd = newWorld(2, equalWeights(4))
+		wd.n.bu.Interfere = wd.interfere(rec)
+		want, _ = wd.n.m.state.Contexts.For(state.NewHeightView(1, 1))
+		s0 = wd.n.snap()
+		wd.n.deliver(wd.net.ppm(1, 1, 1, blk).ToConsensusRawMessage())
+		env.Assert("C15.spi.called", rec.calls == 1)
+		if rec.calls == 1 {
+			env.Assert("C15.spi.ctx_is_current", rec.ctx == want)
+			env.Reach("C15.spi.future_view_proposal")
+		}
+		return
 	case 2: // onElectedByViewChange with no locked vote: RequestNewBlockProposal
 		wd = newWorld(1, equalWeights(4))
 		wd.n.timeout()
